@@ -1098,3 +1098,14 @@ func (t *FnTrans) rpo() []*ssa.BasicBlock {
 	}
 	return post
 }
+
+
+// ghostCompName: heap component of a ghost field. A ghost field whose declared sort mentions a type parameter
+// (U_<name>) is one component per instantiation, since the sort differs.
+func ghostCompName(typeName, field, rawSort, resolved string) string {
+	c := "H." + typeName + ".$" + field
+	if strings.Contains(rawSort, "U_") && rawSort != resolved {
+		c += "@" + mangle(resolved)
+	}
+	return c
+}
